@@ -131,7 +131,7 @@ def lookup_results(ctx, config, w, q, lookups, counts):
                    b["span"], nontrivial=False)
 
 
-def generic_rules(ctx, config, U):
+def generic_rules(ctx, config, U, w=None):
     # iter_units is the unit type's iterator
     outs, b, _ = G.summarize(U, G.QTY + "iter_units", set())
     ctx.ob("iter-units", config, single_val(outs) == ("app", "Unit::iter", None, ()),
@@ -153,10 +153,13 @@ def generic_rules(ctx, config, U):
                                   (model.T_QUANTITY, {"UnitType", "new", "amount", "unit"}, "Quantity"),
                                   (model.T_HRU, {"REF_UNIT"}, "HasRefUnit")):
         for tk, (extra, imp) in G.overrides(ctx, "override", U, trait, allowed, label).items():
-            if label == "HasRefUnit" and tk in model.AMOUNT_TYPES and extra == ["_fit"]:
-                continue
+            if label == "HasRefUnit" and tk in model.AMOUNT_TYPES:
+                extra = [x for x in extra if x != "_fit"]    # the dimensionless amount: _fit is the identity (its own rule)
             # overridden lookups are evaluated per type (lookup-result); the other defaults must not be overridden
-            extra = [x for x in extra if x not in ("from_symbol", "unit_from_symbol", "from_scale", "unit_from_scale")]
+            extra = [x for x in extra if x in {"Unit": {"as_qty"}, "LinearScaledUnit": {"is_ref_unit"}, "Quantity": {"iter_units"}}.get(label, set())]
+            if extra:
+                from . import ovequiv
+                extra = ovequiv.filter_equivalent(ctx, "override", config, w, label, tk, extra, imp)
             if extra:
                 ctx.fail("override", "%s/%s/%s" % (config, label, tk), "impl %s for %s overrides %s" % (label, tk, extra), imp["span"])
 
@@ -189,7 +192,7 @@ def run_config(ctx, config, counts):
     w = ws.load(config)
     U = w.U
     ctx.configs.append(config)
-    generic_rules(ctx, config, U)
+    generic_rules(ctx, config, U, w)
     lookups = lookup_summaries(ctx, config, U)
     for q in w.qtypes:
         lookups_of_type(ctx, config, w, q, lookups, counts)
